@@ -23,9 +23,9 @@ var profiles = map[string]Profile{
 		AbortPct: 8, FilterPct: 4, FailInsPct: 2, MaxStmts: 8, Long: true},
 	"atomic": {Name: "atomic", Txns: 14, KeyedPct: 30, SeedPct: 30, NestedPct: 20, SchemaPct: 5, AbortPct: 50, FilterPct: 12,
 		FailInsPct: 25, MaxStmts: 8},
-	"index": {Name: "index", Txns: 14, KeyedPct: 10, SeedPct: 35, SchemaPct: 30, RestorePct: 8, ReplicaPct: 15,
+	"index": {Name: "index", Txns: 14, KeyedPct: 10, SeedPct: 35, LateIdxPct: 40, SchemaPct: 30, RestorePct: 8, ReplicaPct: 15,
 		AbortPct: 10, FilterPct: 10, FailInsPct: 3, MaxStmts: 7},
-	"filter": {Name: "filter", Txns: 10, KeyedPct: 10, SeedPct: 45, SchemaPct: 10, AbortPct: 10, FilterPct: 33,
+	"filter": {Name: "filter", Txns: 10, KeyedPct: 10, SeedPct: 45, LateIdxPct: 60, SchemaPct: 10, AbortPct: 10, FilterPct: 33,
 		FailInsPct: 2, MaxStmts: 9},
 	"keys": {Name: "keys", Txns: 16, KeyedPct: 100, SeedPct: 40, NestedPct: 10, SchemaPct: 5, RestorePct: 5, ReplicaPct: 15,
 		AbortPct: 20, FilterPct: 6, FailInsPct: 8, MaxStmts: 6},
@@ -61,7 +61,7 @@ type runSummary struct {
 func snapshotCounts(s *Stats) map[string]int {
 	m := map[string]int{"txns": s.Txns, "commits": s.Commits, "aborts": s.Aborts, "stmts": s.Stmts,
 		"multiblock": s.MultiBlockTxns, "reuse": s.ReuseAfterDelete, "youngcols": s.YoungCols,
-		"restores": s.Restores, "nested": s.Nested, "dense": s.Tall, "replicas": s.Replicas, "keyed": s.Keyed, "seeded": s.Seeded,
+		"restores": s.Restores, "nested": s.Nested, "lateindexes": s.LateIndexes, "dense": s.Tall, "replicas": s.Replicas, "keyed": s.Keyed, "seeded": s.Seeded,
 		"failedinserts": s.FailedInserts, "emitted": s.EmittedCommits, "trigger_events": s.TriggerEvents}
 	for k, v := range s.StmtKinds {
 		m["stmt."+k] = v
